@@ -14,7 +14,7 @@
 EXTENDS Bytes, Json, IOUtils
 
 IdOrd(ps) == ps
-W5 == INSTANCE Wire5 WITH Ord <- IdOrd
+W5 == INSTANCE Wire5 WITH Ord <- IdOrd, CutAt <- -1
 W3 == INSTANCE Wire3
 
 Rec == ndJsonDeserialize(IOEnv.TRACE)
